@@ -45,6 +45,8 @@ type faultIn struct {
 	Silent bool   `json:"silent,omitempty"`
 	Down   bool   `json:"down,omitempty"`   // midopen/outopen: open a downstream
 	Refuse int    `json:"refuse,omitempty"` // pos=refuse: ordinal of the stream whose resume is refused
+	Late   bool   `json:"late,omitempty"`   // out*: the request is issued 25 ms after the loss, while reconnect() is already redialling (slow redial)
+	OpenAfter bool `json:"open_after,omitempty"` // after the recovery a downstream and an upstream are opened on the healthy connection
 }
 
 type caseIn struct {
@@ -273,7 +275,16 @@ func (r *runner) fault(f faultIn) {
 		}
 		r.ev(fmt.Sprintf("EStart %d %s", p.label, kind), fmt.Sprintf("EWake %d", p.label))
 		if !r.waitLog(logStart, kindOfLog(kind), p.label) {
-			r.direct = "harness: request never reached the broker"
+			cb.Disarm()
+			cls := -1
+			select {
+			case cls = <-p.done:
+				r.mu.Lock()
+				r.rets[p.label] = cls
+				r.mu.Unlock()
+			default:
+			}
+			r.direct = fmt.Sprintf("%s issued on a healthy connection never reached the broker within 2 s (return class %d; -1 = still blocked)", kind, cls)
 			return
 		}
 		r.ev("ELinkDown", "EDetect")
@@ -283,9 +294,17 @@ func (r *runner) fault(f faultIn) {
 			kind = "KOpenDown"
 		}
 		cur.Link.Sever(memtr.Loud)
-		p := r.start(kind, 4000)
-		pend = append(pend, p)
-		r.ev("ELinkDown", fmt.Sprintf("EStart %d %s", p.label, kind), fmt.Sprintf("EWake %d", p.label), "EDetect")
+		if f.Late {
+			// keepalive (10 ms) has noticed and reconnect() is inside its (slow) redial when the call is made
+			time.Sleep(25 * time.Millisecond)
+			p := r.start(kind, 4000)
+			pend = append(pend, p)
+			r.ev("ELinkDown", "EDetect", "ELoop", fmt.Sprintf("EStart %d %s", p.label, kind), fmt.Sprintf("EWake %d", p.label))
+		} else {
+			p := r.start(kind, 4000)
+			pend = append(pend, p)
+			r.ev("ELinkDown", fmt.Sprintf("EStart %d %s", p.label, kind), fmt.Sprintf("EWake %d", p.label), "EDetect")
+		}
 	}
 
 	// ---- wait until the connection has settled
@@ -338,6 +357,26 @@ func (r *runner) fault(f faultIn) {
 	}
 	r.faults = append(r.faults, fr)
 	r.ev(fmt.Sprintf("@%d", len(r.faults)-1))
+	if f.OpenAfter {
+		for _, kind := range []string{"KOpenDown", "KOpenUp"} {
+			p := r.start(kind, 3000)
+			select {
+			case cl := <-p.done:
+				r.mu.Lock()
+				r.rets[p.label] = cl
+				r.mu.Unlock()
+				if cl == 0 {
+					r.ev(fmt.Sprintf("EStart %d %s", p.label, kind), fmt.Sprintf("EWake %d", p.label), fmt.Sprintf("EResp %d", p.label))
+				} else {
+					r.direct = fmt.Sprintf("%s on the recovered connection failed (return class %d)", kind, cl)
+					return
+				}
+			case <-time.After(wd):
+				r.direct = kind + " on the recovered connection blocked"
+				return
+			}
+		}
+	}
 }
 
 type faultRec struct {
@@ -653,11 +692,11 @@ func runCase(c *caseIn) (res result) {
 	select {
 	case err := <-done:
 		if err != nil {
-			res.direct = "harness: connect failed: " + err.Error()
+			res.direct = "iscp.Connect failed: " + err.Error()
 			return
 		}
 	case <-time.After(wd):
-		res.direct = "harness: connect blocked"
+		res.direct = "iscp.Connect blocked"
 		return
 	}
 	defer func() {
@@ -680,8 +719,12 @@ func runCase(c *caseIn) (res result) {
 		select {
 		case cl := <-p.done:
 			r.rets[p.label] = cl
+			if cl != 0 {
+				res.direct = fmt.Sprintf("opening an initial stream on a fresh connection failed (return class %d)", cl)
+				return
+			}
 		case <-time.After(wd):
-			res.direct = "harness: open blocked"
+			res.direct = "opening an initial stream blocked"
 			return
 		}
 		r.ev(fmt.Sprintf("EStart %d %s", p.label, kind), fmt.Sprintf("EWake %d", p.label), fmt.Sprintf("EResp %d", p.label))
@@ -692,9 +735,6 @@ func runCase(c *caseIn) (res result) {
 			res.direct = r.direct
 			break
 		}
-	}
-	if res.direct != "" && strings.HasPrefix(res.direct, "harness:") {
-		return
 	}
 	// use every stream
 	r.mu.Lock()
@@ -748,6 +788,13 @@ func runCase(c *caseIn) (res result) {
 			}
 			rrs = append(rrs, rr{r.cb.GenOf(x.Sess), x.Label, d})
 		}
+	}
+	seenAlias := map[uint32]bool{}
+	for _, a := range r.cb.DownAliases() {
+		if seenAlias[a] {
+			idsOK = false // two downstreams of one connection under the same stream id alias
+		}
+		seenAlias[a] = true
 	}
 	sort.Slice(rrs, func(i, j int) bool { return rrs[i].g*2000+rrs[i].l*2+rrs[i].d < rrs[j].g*2000+rrs[j].l*2+rrs[j].d })
 	for _, x := range rrs {
@@ -842,6 +889,10 @@ func genRandom(r *rng.R) *caseIn {
 		if r.Chance(1, 5) {
 			f.HsFail = 1 + r.Intn(2)
 		}
+		if strings.HasPrefix(f.Pos, "out") && r.Chance(1, 3) {
+			f.Late, f.Slow = true, true
+		}
+		f.OpenAfter = r.Chance(1, 5)
 		c.Faults = append(c.Faults, f)
 	}
 	return c
@@ -897,6 +948,20 @@ func main() {
 						}
 						f := faultIn{Pos: pos, Slow: slow, Down: sh[1] > sh[0], Refuse: int(r.Intn(4))}
 						jobs = append(jobs, job{&caseIn{Ups: sh[0], Downs: sh[1], Faults: []faultIn{f}}, "single-" + pos})
+						if pos == "outopen" && slow {
+							// opens of both directions issued while reconnect() is already redialling
+							for _, dn := range []bool{false, true} {
+								g := f
+								g.Down, g.Late = dn, true
+								jobs = append(jobs, job{&caseIn{Ups: sh[0], Downs: sh[1], Faults: []faultIn{g}}, "single-outopen-late"})
+							}
+						}
+						if pos == "idle" {
+							// streams of both directions opened after the recovery, next to those opened before it
+							g := f
+							g.OpenAfter = true
+							jobs = append(jobs, job{&caseIn{Ups: sh[0], Downs: sh[1], Faults: []faultIn{g}}, "single-idle-open-after"})
+						}
 						if pos == "midopen" || pos == "outopen" {
 							// streams of BOTH directions are opened around the outage (written again on the new
 							// incarnation) and then used
@@ -933,10 +998,8 @@ func main() {
 				noisyMu.Unlock()
 				nnoisy.Add(1)
 			}
-			if strings.HasPrefix(res.direct, "harness:") {
-				fmt.Fprintln(os.Stderr, res.direct)
-				os.Exit(3)
-			}
+			// the harness never gives up on an unexpected behaviour of the library: it is a direct violation of
+			// this case (input recorded) and the run goes on
 			cs := coqfmt.Case{Term: res.term, Input: j.c, Observed: res.observed, Seed: uint64(i), Nontrivial: res.nt, Kind: j.kind, Direct: res.direct, Sig: res.sig}
 			if cs.Term == "" {
 				cs.Term = "mkCn [] [(0,0)] 1 [] true 0 0 [] [] [] [] [] false"
